@@ -306,6 +306,40 @@ func TestGovcReplayResetLeak(t *testing.T) {
 		t.Fail()
 		return
 	}
+	// second family: each round names a different resource; the token's own facts must
+	// be read through the symbols of the current round (nothing interned by an earlier
+	// round may be remembered)
+	rightsPolicy := Policy{Kind: PolicyKindAllow, Queries: []Rule{{
+		Head: Predicate{Name: "allow"},
+		Body: []Predicate{
+			{Name: "resource", IDs: []Term{Variable("f")}},
+			{Name: "right", IDs: []Term{Variable("f"), String("read")}},
+		},
+	}}}
+	round := func(a Authorizer, resource string) error {
+		a.AddFact(Fact{Predicate: Predicate{Name: "resource", IDs: []Term{String(resource)}}})
+		a.AddPolicy(rightsPolicy)
+		return a.Authorize()
+	}
+	for _, seq := range [][]string{{"/a/file1", "/a/file2"}, {"/a/file2", "/a/file1"}, {"/x", "/y", "/a/file1", "/z"}} {
+		reused, err := tok.Authorizer(pub, WithWorldOptions(datalog.WithMaxDuration(10*time.Second)))
+		if err != nil {
+			t.Fatalf("authorizer: %v", err)
+		}
+		for i, res := range seq {
+			if i > 0 {
+				reused.Reset()
+			}
+			got := round(reused, res)
+			fresh, _ := tok.Authorizer(pub, WithWorldOptions(datalog.WithMaxDuration(10*time.Second)))
+			want := round(fresh, res)
+			if (got == nil) != (want == nil) {
+				fmt.Printf("REPRODUCED: token grants right(\"/a/file1\",\"read\"); rounds %v separated by Reset: round %d (resource %q) returns %v on the reused authorizer but %v on a new authorizer\n", seq, i+1, res, got, want)
+				t.Fail()
+				return
+			}
+		}
+	}
 	fmt.Println("NOT-REPRODUCED: reset authorizer and new authorizer agree")
 }
 
@@ -550,4 +584,170 @@ func TestGovcReplayLimitIdentity(t *testing.T) {
 		return
 	}
 	fmt.Println("NOT-REPRODUCED: a limit hit in a later block is reported as the sentinel error")
+}
+
+// TestGovcReplayVersionGate: C07 — a block that does not declare schema version 3
+// (absent, 0, 1, 2, 4, 2^32-1) must be rejected by the decoder.
+func TestGovcReplayVersionGate(t *testing.T) {
+	for _, v := range []*uint32{nil, govcU32(0), govcU32(1), govcU32(2), govcU32(4), govcU32(1<<32 - 1)} {
+		blk, err := protoBlockToTokenBlock(&pb.Block{Version: v})
+		if err == nil {
+			d := "absent"
+			if v != nil {
+				d = fmt.Sprint(*v)
+			}
+			fmt.Printf("REPRODUCED: a block whose declared schema version is %s is decoded without error (as version %d)\n", d, blk.version)
+			t.Fail()
+			return
+		}
+	}
+	fmt.Println("NOT-REPRODUCED: blocks declaring no version, 0, 1, 2, 4 and 2^32-1 are rejected")
+}
+
+func govcU32(v uint32) *uint32 { return &v }
+
+// TestGovcReplayKeySelection: C16 — WithRootPublicKeys: a token without an identifier
+// and no default key, or with an unknown identifier, gives exactly
+// ErrNoPublicKeyAvailable; a registered identifier gives that key; never the default
+// for an unknown identifier.
+func TestGovcReplayKeySelection(t *testing.T) {
+	pubA, _, _ := ed25519.GenerateKey(rand.Reader)
+	pubB, _, _ := ed25519.GenerateKey(rand.Reader)
+	def := &pubB
+	src := WithRootPublicKeys(map[uint32]ed25519.PublicKey{7: pubA}, nil)
+	srcDef := WithRootPublicKeys(map[uint32]ed25519.PublicKey{7: pubA}, def)
+	id7, id9 := uint32(7), uint32(9)
+	if k, err := src(nil); !errors.Is(err, ErrNoPublicKeyAvailable) || k != nil {
+		fmt.Printf("REPRODUCED: no identifier and no default key: the key source returns (%v, %v), the specified result is exactly ErrNoPublicKeyAvailable\n", k, err)
+		t.Fail()
+		return
+	}
+	for _, s := range []PublickKeyByIDProjection{src, srcDef} {
+		if k, err := s(&id9); !errors.Is(err, ErrNoPublicKeyAvailable) || k != nil {
+			fmt.Printf("REPRODUCED: unknown identifier 9: the key source returns (%v, %v), the specified result is exactly ErrNoPublicKeyAvailable and never a key\n", k, err)
+			t.Fail()
+			return
+		}
+		if k, err := s(&id7); err != nil || !bytes.Equal(k, pubA) {
+			fmt.Printf("REPRODUCED: registered identifier 7: the key source returns (%v, %v) instead of the registered key\n", k, err)
+			t.Fail()
+			return
+		}
+	}
+	if k, err := srcDef(nil); err != nil || !bytes.Equal(k, pubB) {
+		fmt.Printf("REPRODUCED: no identifier with a default key: the key source returns (%v, %v) instead of the default key\n", k, err)
+		t.Fail()
+		return
+	}
+	fmt.Println("NOT-REPRODUCED: key selection by identifier follows the table for absent/unknown/registered identifiers with and without a default key")
+}
+
+// TestGovcReplaySealSymbols: C09 — a token composed over a caller-supplied base symbol
+// table authorizes the same before and after Seal.
+func TestGovcReplaySealSymbols(t *testing.T) {
+	pub, priv, _ := ed25519.GenerateKey(rand.Reader)
+	base := &datalog.SymbolTable{"/a/file1", "zzz"}
+	b := NewBuilder(priv, WithSymbols(base))
+	b.AddAuthorityFact(Fact{Predicate: Predicate{Name: "right", IDs: []Term{String("/a/file1"), String("read")}}})
+	tok, err := b.Build()
+	if err != nil {
+		t.Fatalf("build: %v", err)
+	}
+	tok, err = tok.Append(rand.Reader, govcFactBlock(tok, "extra", "/b/other"))
+	if err != nil {
+		t.Fatalf("append: %v", err)
+	}
+	sealed, err := tok.Seal(rand.Reader)
+	if err != nil {
+		t.Fatalf("seal: %v", err)
+	}
+	verdict := func(x *Biscuit) error {
+		a, err := x.Authorizer(pub, WithWorldOptions(datalog.WithMaxDuration(10*time.Second)))
+		if err != nil {
+			return err
+		}
+		a.AddPolicy(Policy{Kind: PolicyKindAllow, Queries: []Rule{{Head: Predicate{Name: "p"}, Body: []Predicate{
+			{Name: "right", IDs: []Term{String("/a/file1"), String("read")}}, {Name: "extra", IDs: []Term{String("/b/other")}}}}}})
+		return a.Authorize()
+	}
+	if e1, e2 := verdict(tok), verdict(sealed); (e1 == nil) != (e2 == nil) {
+		fmt.Printf("REPRODUCED: token over the base symbol table %v: Authorize gives %v before Seal and %v after\n", *base, e1, e2)
+		t.Fail()
+		return
+	}
+	if s1, s2 := tok.String(), sealed.String(); govcFind(s1, "right(") != govcFind(s2, "right(") {
+		fmt.Printf("REPRODUCED: token over the base symbol table %v prints %q before Seal and %q after\n", *base, govcFind(s1, "right("), govcFind(s2, "right("))
+		t.Fail()
+		return
+	}
+	fmt.Println("NOT-REPRODUCED: sealing a token over a caller-supplied base symbol table keeps verdict and printed facts")
+}
+
+func govcFactBlock(tok *Biscuit, name, arg string) *Block {
+	bb := tok.CreateBlock()
+	bb.AddFact(Fact{Predicate: Predicate{Name: name, IDs: []Term{String(arg)}}})
+	return bb.Build()
+}
+
+// TestGovcReplayBuiltBlockIndependent: C08 — a block already built does not change when
+// its builder is used again.
+func TestGovcReplayBuiltBlockIndependent(t *testing.T) {
+	tok, _ := govcToken(t)
+	bb := tok.CreateBlock()
+	bb.AddCheck(Check{Queries: []Rule{{Head: Predicate{Name: "q"}, Body: []Predicate{{Name: "operation", IDs: []Term{String("read")}}}}}})
+	bb.AddFact(Fact{Predicate: Predicate{Name: "one", IDs: []Term{Integer(1)}}})
+	first := bb.Build()
+	before := first.String(tok.symbols)
+	nf, nr, nc := len(*first.facts), len(first.rules), len(first.checks)
+	bb.AddFact(Fact{Predicate: Predicate{Name: "operation", IDs: []Term{String("read")}}})
+	bb.AddRule(Rule{Head: Predicate{Name: "r", IDs: []Term{Variable("x")}}, Body: []Predicate{{Name: "one", IDs: []Term{Variable("x")}}}})
+	bb.AddCheck(Check{Queries: []Rule{{Head: Predicate{Name: "q"}, Body: []Predicate{{Name: "two", IDs: []Term{Integer(2)}}}}}})
+	_ = bb.Build()
+	if after := first.String(tok.symbols); after != before || len(*first.facts) != nf || len(first.rules) != nr || len(first.checks) != nc {
+		fmt.Printf("REPRODUCED: a built block changes when its builder is used again: %d/%d/%d facts/rules/checks become %d/%d/%d\n", nf, nr, nc, len(*first.facts), len(first.rules), len(first.checks))
+		t.Fail()
+		return
+	}
+	fmt.Println("NOT-REPRODUCED: a built block keeps its facts, rules and checks when its builder is used again")
+}
+
+// TestGovcReplayNextKeyFromSource: C20 — the next key pair of a returned token is the
+// one derived from the bytes the supplied source delivered.
+func TestGovcReplayNextKeyFromSource(t *testing.T) {
+	_, priv, _ := ed25519.GenerateKey(rand.Reader)
+	seq := func(from byte) []byte {
+		b := make([]byte, 32)
+		for i := range b {
+			b[i] = from + byte(i)
+		}
+		return b
+	}
+	b := NewBuilder(priv, WithRNG(bytes.NewReader(seq(1))))
+	b.AddAuthorityFact(Fact{Predicate: Predicate{Name: "right", IDs: []Term{String("/a/file1"), String("read")}}})
+	tok, err := b.Build()
+	if err != nil {
+		t.Fatalf("build: %v", err)
+	}
+	want := ed25519.NewKeyFromSeed(seq(1))
+	if got := tok.container.Proof.GetNextSecret(); !bytes.Equal(got, want.Seed()) {
+		fmt.Printf("REPRODUCED: Build with a source delivering 01..20: the token's next secret is %x, the seed delivered is %x\n", got, want.Seed())
+		t.Fail()
+		return
+	}
+	if got := tok.container.Authority.NextKey.Key; !bytes.Equal(got, want.Public().(ed25519.PublicKey)) {
+		fmt.Printf("REPRODUCED: Build with a source delivering 01..20: the announced next key is %x, the key derived from the delivered seed is %x\n", got, want.Public())
+		t.Fail()
+		return
+	}
+	app, err := tok.Append(bytes.NewReader(seq(0x21)), govcBlock(tok, "foo"))
+	if err != nil {
+		t.Fatalf("append: %v", err)
+	}
+	want2 := ed25519.NewKeyFromSeed(seq(0x21))
+	if got := app.container.Proof.GetNextSecret(); !bytes.Equal(got, want2.Seed()) {
+		fmt.Printf("REPRODUCED: Append with a source delivering 21..40: the token's next secret is %x, the seed delivered is %x\n", got, want2.Seed())
+		t.Fail()
+		return
+	}
+	fmt.Println("NOT-REPRODUCED: next keys of Build and Append are derived from the bytes the source delivered")
 }
